@@ -316,8 +316,10 @@ def _enclosing_stmt_block(node):
     return _enclosing(node, (ast.If, ast.FunctionDef))
 
 
-def rotation_obligations(ctx, rule):
-    """C15.R5: every element produced by the rotation formulas is a byte (intervals; names resolved by def-use, not by spelling)."""
+def rotation_obligations(ctx, rule, decided_elsewhere=()):
+    """C15.R5: every element produced by the rotation formulas is a byte (intervals; names resolved by def-use, not by spelling).
+    `decided_elsewhere`: methods whose kernel was folded and compared with the reference (shift counts r and 8-r with 1 <= r <= 7, masked high
+    part) by C15.R6 -- for those a formula that is not spelled inside the method body is not an open question."""
     M = ctx.model
     try:
         ci = M.cls("ProcessRotateLeft")
@@ -347,7 +349,7 @@ def rotation_obligations(ctx, rule):
                     r = ev(node.elt, env)
                     ctx.ob(rule, fi, 0 <= r[0] and r[1] <= 255 and all(env[c][0] >= 1 and env[c][1] <= 7 for c in counts),
                            "the bit-pair rotation formula of %s yields bytes, with shift counts in 1..7 (%s; counts %s)" % (meth, r, {c: env[c] for c in counts}), key="%s formula" % meth, node=node)
-            if n == 0:
+            if n == 0 and meth not in decided_elsewhere:
                 raise Undecided("bit-pair formula not found in %s" % meth)
     except Undecided as e:
         ctx.error("%s undecided: interval engine cannot follow the rotation kernels (%s)" % (rule, e))
